@@ -86,7 +86,7 @@ class Edge:
         ck.note_case([stream, container, pulse_us(p), [(t, d, TE.show(x, 80), i) for t, d, x, i in specs[:40]], len(specs)],
                      nontrivial=out != "raised" and (len(out) < len(inp) or any(a != b for a, b in zip(inp, out))))
         if bad:
-            ck.failing_input("C10:" + bad.split(":")[0], f"[{stream}/{route}] " + bad, rep())
+            ck.failing_input("C10:" + bad.split(":")[0], f"[{stream}/{route}] " + (bad if len(bad) < 900 else bad[:900] + " ..."), rep())
         if out != "raised" and not (bad or "").startswith("raised"):
             if TE.wire_ok([v for t, d, _, _ in specs for v in (t, d, t + d)] + [pulse_us(p)]):
                 R.pending.append((stream, p, inp, out, c10.wire_case(pulse_us(p), inp), rep))
